@@ -77,6 +77,7 @@ func cmdRun(args []string) {
 	start := time.Now()
 	b := newBatch(a.Engine, a.Property, a.Seed, a.Shard)
 	b.trace = *trace
+	b.pos = &BatchPos{Tier: a.Tier, Shard: a.Shard, NShards: a.NShards, N: a.N, Race: a.Race}
 	deadline := start.Add(time.Duration(a.MaxSecs * float64(time.Second)))
 	for run := a.Shard; run < a.N; run += a.NShards {
 		if time.Now().After(deadline) {
@@ -111,9 +112,9 @@ func runOne(b *BatchResult, a *runArgs, run uint64) {
 		}
 		renderRunOne(b, a.Property, a.Seed, run, n)
 	case "puresim":
-		every := uint64(40) // quick: a few real process restarts
+		every := uint64(5) // real process restarts (two fresh processes each)
 		if a.Tier == "thorough" {
-			every = 10
+			every = 3
 		}
 		pureRunOne(b, a.Property, a.Seed, run, a.Race, every)
 	case "mergesim":
@@ -139,6 +140,7 @@ func runOne(b *BatchResult, a *runArgs, run uint64) {
 
 type replayResult struct {
 	Reproduced  bool     `json:"reproduced"`
+	ViaBatch    bool     `json:"via_batch,omitempty"`
 	Class       string   `json:"class"`
 	Detail      string   `json:"detail"`
 	Fingerprint string   `json:"fingerprint"`
@@ -172,7 +174,14 @@ func cmdReplay(args []string) {
 		}
 		return
 	}
-	res := replayViolation(&v)
+	var res *replayResult
+	if v.Batch != nil && v.BatchHistory {
+		// the process must be as fresh as the batch's worker was: nothing may
+		// run before the prefix
+		res = replayBatchPrefix(&v)
+	} else {
+		res = replayViolation(&v)
+	}
 	if err := writeJSON(*out, res); err != nil {
 		fmt.Fprintln(os.Stderr, "worker:", err)
 		os.Exit(2)
@@ -220,5 +229,35 @@ func replayViolation(v *Violation) *replayResult {
 			res.Detail = x.detail
 		}
 	}
+	return res
+}
+
+// replayBatchPrefix re-executes the violation's shard from its first run up to
+// and including the violating run, in this (fresh) process, exactly as the
+// batch did, and looks for the same violation class in that run.
+func replayBatchPrefix(v *Violation) *replayResult {
+	a := &runArgs{Engine: v.Engine, Property: v.Property, Tier: v.Batch.Tier, Seed: v.Seed, Shard: v.Batch.Shard, NShards: v.Batch.NShards, N: v.Batch.N, Race: v.Batch.Race}
+	b := newBatch(a.Engine, a.Property, a.Seed, a.Shard)
+	b.pos = v.Batch
+	b.onlyRun = int64(v.Run)
+	off := raceLogSize()
+	for run := a.Shard; run <= int(v.Run); run += a.NShards {
+		if run == int(v.Run) {
+			off = raceLogSize()
+		}
+		b.beginRun(uint64(run))
+		runOne(b, a, uint64(run))
+	}
+	res := &replayResult{ViaBatch: true}
+	for _, x := range b.Violations {
+		res.AllClasses = append(res.AllClasses, x.Class)
+		if x.Class == v.Class && !res.Reproduced {
+			res.Reproduced = true
+			res.Class = x.Class
+			res.Detail = x.Detail
+			res.Fingerprint = x.Fingerprint
+		}
+	}
+	_ = off
 	return res
 }
